@@ -568,3 +568,254 @@ def ght_distribution(cases, results):
             if op[0] == "leaf" and "optrows" in a:
                 d["leaf_found" if a["optrows"] is not None else "leaf_missing"] += 1
     return d
+
+
+# ====================================================================== C08 extended: storage kinds, forced, drains, COLT
+
+GHT2_SHAPES = {"k1v1": {"nk": 1, "arity": 2}, "k2v1": {"nk": 2, "arity": 3}, "k0v2": {"nk": 0, "arity": 2}}
+X_KEYS = {1: "GhtLeaf/derived-eq/forced-flag", 2: "GhtInner/empty-child-after-drain"}
+
+
+def x_op_term(op):
+    name, w = op[0], g_w(op[1])
+    if name == "ins":
+        return "XInsert %s %s" % (w, g_row(op[2]))
+    if name == "contains":
+        return "XContains %s %s" % (w, g_row(op[2]))
+    if name == "child_drain":
+        return "XChildDrain %s %d" % (w, op[2])
+    return {"merge": "XMerge", "iter": "XIter", "cmp": "XCmp", "eq": "XEq", "is_bot": "XIsBot",
+            "force_drain": "XForceDrain"}[name] + " " + w
+
+
+def x_ans_term(op, a):
+    if a == "inner":
+        return "XAInner"
+    if a == "unsupported":
+        return "XAUnsupported"
+    if not isinstance(a, dict):
+        raise ValueError(a)
+    if "panic" in a:
+        if op[0] == "cmp":
+            return "XACmp PPanic"
+        raise ValueError(a)
+    if "b" in a:
+        return "XABool %s" % g_bool(a["b"])
+    if "rows" in a:
+        return "XARows %s" % g_rows(a["rows"])
+    if "optrows" in a:
+        return "XAOptRows " + ("None" if a["optrows"] is None else "(Some %s)" % g_rows(a["optrows"]))
+    if "cmp" in a:
+        return "XACmp " + ("PNone" if a["cmp"] == "None" else "(PSome %s)" % a["cmp"])
+    raise ValueError(a)
+
+
+def ght2_term(case, res):
+    if "ans" not in res or len(res["ans"]) != len(case["ops"]):
+        return 3
+    try:
+        answers = "[" + "; ".join(x_ans_term(o, a) for o, a in zip(case["ops"], res["ans"])) + "]"
+    except (ValueError, TypeError, KeyError):
+        return 3
+    sh = GHT2_SHAPES[case["shape"]]
+    ops = "[" + "; ".join(x_op_term(o) for o in case["ops"]) + "]"
+    return "(c08x_chk %s %d%%nat %d%%nat %s %s)" % (KINDS[case["storage"]], sh["arity"], sh["nk"], ops, answers)
+
+
+def gen_ght2_case(rng, tier, drains=True):
+    shape = rng.choice(sorted(GHT2_SHAPES))
+    storage = rng.choice(["set", "set", "counted", "column"])
+    sh = GHT2_SHAPES[shape]
+    dom = rng.choice([2, 3, 3, 4])
+    nops = rng.range(1, 30)
+    ops = []
+    rows = []
+
+    def row():
+        return [rng.below(dom) for _ in range(sh["arity"])]
+
+    while len(ops) < nops:
+        w = 1 if rng.chance(2, 5) else 0
+        r = rng.below(100)
+        if r < 38:
+            x = rng.choice(rows) if rows and rng.chance(1, 3) else row()
+            rows.append(x)
+            ops.append(["ins", w, x])
+        elif r < 48:
+            ops.append(["merge", w])
+        elif r < 60:
+            ops.append(["contains", w, rng.choice(rows) if rows and rng.chance(3, 5) else row()])
+        elif r < 70:
+            ops.append(["iter", w])
+        elif r < 80:
+            ops.append(["cmp", w])
+        elif r < 88:
+            ops.append(["eq", w])
+        elif r < 92:
+            ops.append(["is_bot", w])
+        elif drains and r < 96:
+            ops.append(["force_drain", w])
+            if rng.chance(1, 2):
+                ops.append([rng.choice(["eq", "cmp", "merge", "iter"]), rng.below(2)])
+        elif drains:
+            ops.append(["child_drain", w, rng.choice(rows)[0] if rows and rng.chance(3, 4) else rng.below(dom)])
+            if rng.chance(1, 2):
+                ops.append([rng.choice(["eq", "cmp", "merge", "child_drain"]), rng.below(2)] )
+                if ops[-1][0] == "child_drain":
+                    ops[-1].append(ops[-2][2])
+    return {"k": "ght2", "storage": storage, "shape": shape, "ops": ops, "drains": drains, "src": "rnd"}
+
+
+def shrink_ops_generic(case):
+    ops = case["ops"]
+    n = len(ops)
+
+    def mk(new_ops):
+        c = dict(case)
+        c["ops"] = new_ops
+        c["src"] = "shrunk"
+        return c
+
+    size = n // 2
+    while size >= 1:
+        for i in range(0, n, size):
+            new = ops[:i] + ops[i + size:]
+            if new:
+                yield mk(new)
+        size //= 2
+
+
+# ---- COLT forests
+
+
+def c_op_term(op):
+    if op[0] == "ins":
+        return "CInsert %s" % g_row(op[1])
+    if op[0] == "get":
+        return "CGet %s" % g_row(op[1])
+    return "CAll"
+
+
+def c_ans_term(a):
+    if a == "unit":
+        return "CAUnit"
+    return "CAForest [" + "; ".join(g_rows(e) for e in a["forest"]) + "]"
+
+
+def colt_term(case, res):
+    if "ans" not in res or len(res["ans"]) != len(case["ops"]):
+        return 3
+    try:
+        answers = "[" + "; ".join(c_ans_term(a) for a in res["ans"]) + "]"
+    except (ValueError, TypeError, KeyError):
+        return 3
+    ops = "[" + "; ".join(c_op_term(o) for o in case["ops"]) + "]"
+    a = case["arity"]
+    return "(colt_chk KColumn %d%%nat %d%%nat %s %s)" % (a, a + 1, ops, answers)
+
+
+def gen_colt_case(rng, tier):
+    arity = rng.choice([2, 3])
+    dom = rng.choice([2, 3, 3])
+    nops = rng.range(1, 25)
+    ops = []
+    rows = []
+    for _ in range(nops):
+        r = rng.below(100)
+        if r < 50:
+            x = rng.choice(rows) if rows and rng.chance(1, 4) else [rng.below(dom) for _ in range(arity)]
+            rows.append(x)
+            ops.append(["ins", x])
+        elif r < 88:
+            base = rng.choice(rows) if rows and rng.chance(3, 4) else [rng.below(dom) for _ in range(arity)]
+            ops.append(["get", base[:rng.range(1, arity)]])
+        else:
+            ops.append(["all"])
+    ops.append(["all"])
+    return {"k": "colt", "arity": arity, "ops": ops, "src": "rnd"}
+
+
+# ---- mixing the three kinds of C08 cases
+
+
+def c08_term(case, res):
+    k = case.get("k")
+    if k == "ght":
+        return ght_term(case, res)
+    if k == "ght2":
+        return ght2_term(case, res)
+    if k == "colt":
+        return colt_term(case, res)
+    return 3
+
+
+def gen_c08(rng, tier, n):
+    cases = load_corpus("C08")
+    while len(cases) < n:
+        r = rng.below(10)
+        if r < 5:
+            cases.append(gen_ght_case(rng, tier))
+        elif r < 8:
+            cases.append(gen_ght2_case(rng, tier, drains=rng.chance(1, 2)))
+        else:
+            cases.append(gen_colt_case(rng, tier))
+    return cases
+
+
+def shrink_c08(case):
+    if case.get("k") == "ght":
+        return shrink_ght(case)
+    return shrink_ops_generic(case)
+
+
+class VerdictRecorder:
+    """State-based finding classification: the Coq verdict carries, above bits 0-1, the class of
+    the deviations computed from the MODEL's state (ModelGHT2.cause).  vlib hands finding_key only
+    (case, result), so the verdicts of the last evaluation are recorded here by wrapping
+    vlib.evaluate (tools/vlib.py itself is not edited)."""
+
+    def __init__(self, vlib):
+        self.by_case = {}
+        orig = vlib.evaluate
+        rec = self
+
+        def wrapped(ctx, spec, binary, cases):
+            results, verd = orig(ctx, spec, binary, cases)
+            for c, v in zip(cases, verd):
+                rec.by_case[vlib.case_hash(c)] = v
+            return results, verd
+
+        vlib.evaluate = wrapped
+        self.vlib = vlib
+
+    def klass(self, case):
+        v = self.by_case.get(self.vlib.case_hash(case))
+        return None if v is None else (v >> 2) & 3
+
+
+def c08_nontrivial(case, res):
+    if case.get("k") == "ght":
+        return ght_nontrivial(case, res)
+    names = [o[0] for o in case["ops"]]
+    return "ins" in names and len(set(names)) > 1
+
+
+def c08_distribution(cases, results):
+    g = [(c, r) for c, r in zip(cases, results) if c.get("k") == "ght"]
+    d = ght_distribution([c for c, _ in g], [r for _, r in g])
+    d["case_kinds"] = {}
+    d["ght2_storage"] = {}
+    d["ght2_ops"] = {}
+    d["colt_ops"] = {}
+    for c in cases:
+        k = c.get("k")
+        d["case_kinds"][k] = d["case_kinds"].get(k, 0) + 1
+        if k == "ght2":
+            d["ght2_storage"][c["storage"]] = d["ght2_storage"].get(c["storage"], 0) + 1
+            for op in c["ops"]:
+                d["ght2_ops"][op[0]] = d["ght2_ops"].get(op[0], 0) + 1
+        if k == "colt":
+            for op in c["ops"]:
+                key = op[0] + (str(len(op[1])) if op[0] == "get" else "")
+                d["colt_ops"][key] = d["colt_ops"].get(key, 0) + 1
+    return d
